@@ -132,6 +132,11 @@ def g_event(e):
     raise ValueError(k)
 
 
+def _ev_text(it):
+    """Gallina text of the event of a trace item; a late-verdict marker is printed as such."""
+    return f"(* late_verdict {it[1]} {it[2]} *)" if it[0] == "late" else g_event(it[0])
+
+
 def g_obs(o):
     lbl, cr, att, stc, h, hh, cl = o
     crs = "None" if cr is None else f"(Some {N(cr)})"
@@ -150,8 +155,32 @@ HEADER = ("From Coq Require Import List NArith Bool.\nImport ListNotations.\n"
 
 
 def g_case(avail, items):
-    return (f"trace_ok (mkSys [plan0] {g_claims(avail)} need_OPTIONAL) [\n    "
-            + ";\n    ".join(g_item(i) for i in items) + "]")
+    """items may contain markers ("late", idx, verdict, obs): a verdict of a hash-check job delivered to a row that
+    is no longer CHECKING (model: late_verdict, not an event); the trace is checked piecewise around them."""
+    segs, cur, lates = [], [], []
+    for it in items:
+        if it[0] == "late":
+            segs.append(cur)
+            lates.append(it)
+            cur = []
+        else:
+            cur.append(it)
+    segs.append(cur)
+
+    def tr(seg):
+        return "[\n    " + ";\n    ".join(g_item(i) for i in seg) + "]"
+
+    def evs(seg):
+        return "[" + "; ".join(g_event(i[0]) for i in seg) + "]"
+    state = f"(mkSys [plan0] {g_claims(avail)} need_OPTIONAL)"
+    parts = []
+    for k, seg in enumerate(segs):
+        parts.append(f"trace_ok {state} {tr(seg)}")
+        if k < len(lates):
+            _, idx, c, obs = lates[k]
+            state = f"(late_verdict (run {state} {evs(seg)}) {idx} {c})"
+            parts.append(f"obs_ok {state} [" + "; ".join(g_obs(o) for o in obs) + "]")
+    return " && ".join(f"({p})" for p in parts)
 
 
 # ---------------------------------------------------------------------------------------------
@@ -241,7 +270,9 @@ class Driver:
         if acc and not existed:
             self.idx[n] = len(self.idx)
             self.cmds[n] = []
-        if acc and existed and executing:
+        from stepup.core.enums import StepState as _SS
+        checking = before is not None and before[3] == _SS.CHECKING.value
+        if acc and existed and (executing or checking):
             after = self.items[-1][2]
             after = {o[0]: o for o in after}.get(n)
             # benign (C12_*_calm): state, _holding and step_resource of the executing step are what they were;
@@ -387,6 +418,26 @@ class Driver:
         await self.op(("check", self.idx[n], c), fn)
         self.count("check:" + c)
 
+    async def late_check(self, n, c):
+        """The verdict of a hash-check job that is still in flight although the row is no longer CHECKING (possible
+        after a partial recycle of a CHECKING step): the same writes as `check`, recorded as a marker."""
+        from stepup.core.enums import StepState
+
+        def fn():
+            st = self.step(n)
+            if c == "CMismatch":
+                st.reset_for_rerun()
+                st.delete_hash()
+                st.set_state(StepState.PENDING)
+            else:
+                st.set_state(StepState.PENDING)
+        async with self.w.db:
+            fn()
+        async with self.w.db:
+            obs = self.dump()
+        self.items.append(("late", self.idx[n], c, obs))
+        self.count("late_verdict:" + c)
+
     async def hold(self, n, k):
         acc = await self.op(("hold", self.idx[n], k), lambda: self.step(n).hold())
         if acc:
@@ -413,11 +464,14 @@ def _rand_claims(rng):
     return {n: rng.randint(1, 2) for n in rng.sample(names, k)}
 
 
-async def _one_trace(rng, length, script=None):
+async def _one_trace(rng, length, script=None, avail=None):
     from stepup.core.enums import Need, StepState
+    fixed = avail
     avail = {"cpu": rng.choice([1, 2, 3]), "gpu": rng.choice([1, 1, 2])}
     if rng.random() < 0.5:
         avail["lic"] = rng.choice([0, 1])
+    if fixed is not None:
+        avail = dict(fixed)
     spec = ",".join(f"{k}:{v}" for k, v in avail.items())
     async with WF() as w:
         await w.sched.initialize(spec)
@@ -535,8 +589,39 @@ def _recycle_script(rng):
     return script
 
 
+def _late_verdict_script():
+    """C12_resources_full_refuted_late_verdict on the real Workflow + Scheduler (gpu:1): S is CHECKING when the
+    deferred P runs again and declares it with another output; S is checked again; the first verdict drops the
+    hash, S executes; the second verdict reaches the RUNNING row; S is dispatched a second time."""
+    from stepup.core.enums import Need, StepState
+    dn = Need.DEFAULT.value
+
+    async def script(d):
+        await d.define(0, 1, 0, {}, dn)
+        res = await d.pop()
+        await d.reset(res[0])                            # P = 1 executes
+        await d.define(1, 2, 0, {"gpu": 1}, dn)
+        res = await d.pop()
+        await d.reset(res[0])                            # S = 2 executes
+        await d.complete(2, 0, "OSucc")
+        await d.markpending(2)
+        await d.pop()                                    # S CHECKING (first job)
+        await d.complete(1, 0, "ODefer")
+        res = await d.pop()
+        await d.reset(res[0])                            # P again: S detached
+        await d.define(1, 2, 1, {"gpu": 1}, dn)          # other output: partial recycle, row reset to PENDING
+        await d.pop()                                    # S CHECKING again (second job)
+        await d.check(2, "CMismatch")                    # verdict of the first job
+        res = await d.pop()
+        await d.reset(res[0])                            # S executes, holds the gpu
+        await d.late_check(2, "CMismatch")               # verdict of the second job reaches the RUNNING row
+        await d.pop()                                    # S dispatched again: two commands of S
+        d.count("script:late-verdict")
+    return script
+
+
 def _run_scripts(ctx, n):
-    out = []
+    out = [run(asyncio.wait_for(_one_trace(__import__("random").Random(7), 0, script=_late_verdict_script(), avail={"gpu": 1}), 120))]
     for _ in range(n):
         sub = __import__("random").Random(ctx.rng.getrandbits(48))
         out.append(run(asyncio.wait_for(_one_trace(sub, 0, script=_recycle_script(sub)), 120)))
@@ -659,33 +744,35 @@ def correspondence(ctx):
     checks = []
     for d in drivers:
         checks.append(g_case(d.avail, d.items))
-        key = tuple(g_event(i[0]) for i in d.items)
+        key = tuple(_ev_text(i) for i in d.items)
         ctx.case(("E2", key), d.nontrivial)
         for k, v in d.counts.items():
             ctx.count("E2:" + k, v)
         ctx.count("E2:items", len(d.items))
-    ctx.sample({"E2-trace": [g_event(i[0]) for i in drivers[0].items][:14]})
+    ctx.sample({"E2-trace": [_ev_text(i) for i in drivers[0].items][:14]})
     bad = common.run_cases(ctx, "e2", HEADER, checks, chunk=12, timeout=900)
     ctx.traces_validated += len(checks) - len(bad)
     for i in bad[:3]:
         d = drivers[i]
         pos = _first_mismatch(ctx, d)
-        ev = g_event(d.items[pos][0]) if pos is not None and pos < len(d.items) else "?"
+        ev = _ev_text(d.items[pos]) if pos is not None and pos < len(d.items) else "?"
         kind = ev.split()[0]
         ctx.add_failure("correspondence", "E2:" + kind, f"E2:{kind}",
                         f"model and implementation disagree at item {pos} ({ev}); implementation rows after it: "
                         f"{d.items[pos][2] if pos is not None else None}, accepted={d.items[pos][1] if pos is not None else None}, "
                         f"eligible={d.items[pos][3] if pos is not None else None}",
-                        witness={"avail": d.avail, "events": [g_event(it[0]) for it in d.items[:(pos or 0) + 1]]})
+                        witness={"avail": d.avail, "events": [_ev_text(it) for it in d.items[:(pos or 0) + 1]]})
 
 
 def _first_mismatch(ctx, d):
+    late = next((k for k, it in enumerate(d.items) if it[0] == "late"), None)
+    items = d.items if late is None else d.items[:late]
     term = (f"check_trace (mkSys [plan0] {g_claims(d.avail)} need_OPTIONAL) [\n    "
-            + ";\n    ".join(g_item(i) for i in d.items) + "] 0")
+            + ";\n    ".join(g_item(i) for i in items) + "] 0")
     vals = common.eval_terms(ctx, "mm", HEADER, [term])
     import re
     m = re.search(r"Some (\d+)", vals[0] or "")
-    return int(m.group(1)) if m else None
+    return int(m.group(1)) if m else late
 
 
 # ---------------------------------------------------------------------------------------------
@@ -795,7 +882,8 @@ def _replay_witness(kind):
     proj, schedule = _defer_project(kind)
     with tempfile.TemporaryDirectory(prefix="verif-c12-") as tmp:
         proj.materialise(tmp)
-        res = e3.build(tmp, proj.program, njob=4, resources="gpu:1", schedule=schedule, timeout=60)
+        with LP.watchdog():
+            res = e3.build(tmp, proj.program, njob=4, resources="gpu:1", schedule=schedule, timeout=60)
     _annotate_defs(res, proj.program)
     declared_in = {"S": "P", "T": "P", "C": "S", "P": "./plan.py", "Q": "./plan.py"}
     found = check_stamps(res, 4, {"gpu": 1}, declared_in)
@@ -863,8 +951,9 @@ def _random_build(rng):
     schedule = {"seed": rng.getrandbits(30), "points": rng.choice([["end"], ["start", "end"]])}
     with tempfile.TemporaryDirectory(prefix="verif-c12-") as tmp:
         proj.materialise(tmp)
-        res = e3.build(tmp, proj.program, njob=njob, resources=",".join(f"{k}:{v}" for k, v in avail.items()),
-                       schedule=schedule, timeout=90, keep_going=True)
+        with LP.watchdog():
+            res = e3.build(tmp, proj.program, njob=njob, resources=",".join(f"{k}:{v}" for k, v in avail.items()),
+                           schedule=schedule, timeout=90, keep_going=True)
     _annotate_defs(res, proj.program)
     found = check_stamps(res, njob, avail, declared_in)
     return found, proj, njob, avail, schedule, res
@@ -881,7 +970,7 @@ def oracle(ctx):
                 continue
             seen.add(sig)
             ctx.add_failure("oracle", "A:" + sig, sig, detail,
-                            witness={"avail": d.avail, "events": [g_event(it[0]) for it in d.items]})
+                            witness={"avail": d.avail, "events": [_ev_text(it) for it in d.items]})
     # oracle B1: the three refutation witnesses on the real serve()
     expect = {"claims": ("resource-overcommitted", SIG_CLAIMS), "reset": ("command-runs-twice", SIG_RESET),
               "hold": ("held-child-runs", SIG_HOLD)}
@@ -1027,7 +1116,7 @@ def search(ctx):
     for d in _run_traces(ctx, 300, 50):
         for sig, detail, _ in d.violations:
             if report("search:" + sig, sig, detail + " (search)",
-                      {"avail": d.avail, "events": [g_event(it[0]) for it in d.items]}):
+                      {"avail": d.avail, "events": [_ev_text(it) for it in d.items]}):
                 return
 
 
